@@ -115,8 +115,8 @@ PROTO_ASSUME = ['coin stubs: tmcg_mpz_*random{m,b} return an arbitrary value in 
 def GRP(p, q, g, k, dbits=4):
     vb = max(2 * p.bit_length(), dbits + q.bit_length() + 1) + 1
     return dict(H_P=p, H_Q=q, H_G=g, H_K=k, VF_BITS=vb)
-GROUPS_Q = [GRP(7, 3, 2, 2), GRP(11, 5, 3, 2)]
-GROUPS_T = GROUPS_Q + [GRP(13, 3, 3, 4), GRP(23, 11, 2, 2), GRP(29, 7, 7, 4), GRP(31, 5, 2, 6), GRP(47, 23, 2, 2)]
+GROUPS_Q = [GRP(7, 3, 2, 2)]
+GROUPS_T = GROUPS_Q + [GRP(11, 5, 3, 2), GRP(13, 3, 3, 4), GRP(23, 11, 2, 2), GRP(29, 7, 7, 4), GRP(31, 5, 2, 6), GRP(47, 23, 2, 2)]
 VTMF_TU = ['BarnettSmartVTMF_dlog.cc', 'mpz_spowm.cc', 'mpz_sprime.cc']
 def PROTO(prop, name, src, entry, desc, symbolic, tu=VTMF_TU, groups=None, groupsT=None, **kw):
     d = dict(id='%s_%s' % (prop, name), property=prop, src=src, entry=entry, tu=list(tu), unwind=24, replace=PROTO_REPLACE,
@@ -132,6 +132,7 @@ for _e, _n, _d, _s in (('h_key_nizk', 'vtmf_key_nizk', 'key-share NIZK: PublishK
                        ('h_remasking', 'vtmf_remasking', 'VerifiableRemaskingProtocol Mask/Prove -> Verify accepted', 'key, ciphertext, exponent, coins, digest'),
                        ('h_decryption', 'vtmf_decryption', 'two players: decryption share Prove -> Verify_Update accepted; Finalize opens to the message', 'both keys, message, all coins, digests')):
     PROTO('C03', _n, 'C03_vtmf.cc', _e, _d, _s)
+    if _e == 'h_decryption': HARNESSES[-1]['in_tiers'] = ('thorough',)
 
 # ------------------------------------------------------------------ C05 (binding) on the VTMF
 def PROTO5(name, entry, desc, **kw):
@@ -148,8 +149,8 @@ def PROTO8(name, entry, desc, symbolic, **kw):
     HARNESSES[-1]['defines'] = dict(HARNESSES[-1]['defines'], H_COLLISION_FREE=1, H_HMAX=10)
     HARNESSES[-1]['assumptions'] = PROTO_ASSUME + ['hash is collision-free on the calls made (distinct inputs get distinct digests)']
 def XBC(groups): return [dict(g, H_XB=xb, H_XC=xc, H_FP_IDENTITY=1, MINISTL_MAP_MAX=3) for g in groups for xb in range(g['H_Q']) for xc in range(g['H_Q']) if xb != xc]
-PROTO8('order', 'h_order', 'three players: common key equal for both processing orders and == product of all public keys', 'secret key of A, all proof coins, NIZK digests, the two processing orders; secret keys of B and C enumerated by slices', timeout=3000, in_tiers=('thorough',), groups=XBC(GROUPS_Q[:1]), groupsT=XBC(GROUPS_Q))
-PROTO8('remove', 'h_remove', 'add/add/remove restores the previous key; unknown removal refused', 'key of A, coins, NIZK digests; keys of B != C enumerated by slices', timeout=3000, memgb=14, in_tiers=('thorough',), groups=XBC(GROUPS_Q[:1]), groupsT=XBC(GROUPS_Q))
+PROTO8('order', 'h_order', 'three players: common key equal for both processing orders and == product of all public keys', 'secret key of A, all proof coins, NIZK digests, the two processing orders; secret keys of B and C enumerated by slices', timeout=3000, in_tiers=('thorough',), groups=XBC(GROUPS_Q[:1]), groupsT=XBC(GROUPS_T[:2]))
+PROTO8('remove', 'h_remove', 'add/add/remove restores the previous key; unknown removal refused', 'key of A, coins, NIZK digests; keys of B != C enumerated by slices', timeout=3000, memgb=14, in_tiers=('thorough',), groups=XBC(GROUPS_Q[:1]), groupsT=XBC(GROUPS_T[:2]))
 PROTO8('outgroup', 'h_outgroup', 'key = u*g^x with u outside G plus a proof honestly computed for it: refused, key unchanged', 'x, u, coins, digests')
 PROTO8('bad', 'h_bad', 'arbitrary / truncated contribution: accepted only if complete and key in G; refused => key and count unchanged', 'key value in [-2,2p), c, r in [-q,2q), number of tokens present')
 
@@ -167,19 +168,19 @@ C06('pvss', 'h_pvss_group', ['PedersenVSS.cc', 'mpz_spowm.cc', 'mpz_sprime.cc'],
 # ------------------------------------------------------------------ C16 (verifiers == textbook)
 ASTC_TU = ['CanettiGennaroJareckiKrawczykRabinASTC.cc', 'GennaroJareckiKrawczykRabinDKG.cc', 'JareckiLysyanskayaASTC.cc', 'PedersenVSS.cc', 'mpz_spowm.cc', 'mpz_sprime.cc']
 PROTO('C16', 'dss_verify', 'C16_verify.cc', 'h_dss_verify', 'CanettiGennaroJareckiKrawczykRabinDSS::Verify == DSA verification equation and range conditions, both directions',
-      'public key y = g^x (all x), m, r, s in [-2, 2q+2)', tu=ASTC_TU, groups=[GRP(23, 11, 2, 2), GRP(11, 5, 3, 2)], groupsT=[GRP(23, 11, 2, 2), GRP(11, 5, 3, 2), GRP(47, 23, 2, 2), GRP(29, 7, 7, 4)])
+      'public key y = g^x (all x), m, r, s in [-2, 2q+2)', tu=ASTC_TU, groups=[GRP(11, 5, 3, 2), GRP(23, 11, 2, 2)], groupsT=[GRP(23, 11, 2, 2), GRP(11, 5, 3, 2), GRP(47, 23, 2, 2), GRP(29, 7, 7, 4)])
 PROTO('C16', 'nts_verify', 'C16_verify.cc', 'h_nts_verify', 'GennaroJareckiKrawczykRabinNTS::Verify == Schnorr verification equation, both directions',
-      'public key y = g^x (all x), m, c in [-1, 2^4], s in [-q, 2q]', tu=ASTC_TU, groups=[GRP(23, 11, 2, 2), GRP(11, 5, 3, 2)], groupsT=[GRP(23, 11, 2, 2), GRP(11, 5, 3, 2), GRP(47, 23, 2, 2), GRP(29, 7, 7, 4)])
+      'public key y = g^x (all x), m, c in [-1, 2^4], s in [-q, 2q]', tu=ASTC_TU, groups=[GRP(11, 5, 3, 2), GRP(23, 11, 2, 2)], groupsT=[GRP(23, 11, 2, 2), GRP(11, 5, 3, 2), GRP(47, 23, 2, 2), GRP(29, 7, 7, 4)])
 
 # ------------------------------------------------------------------ C18 (oblivious transfer)
 EOTP_TU = ['NaorPinkasEOTP.cc', 'mpz_spowm.cc', 'mpz_sprime.cc']
 for _n in (2, 3):
     PROTO('C18', 'ot_n%d' % _n, 'C18_eotp.cc', 'h_ot_n', '1-of-%d: chooser outputs M_sigma (honest run, all coins)' % _n, 'index sigma, messages in G, all coins of chooser and sender',
-          tu=EOTP_TU, groups=[dict(GRP(11, 5, 3, 2), H_N=_n)], groupsT=[dict(GRP(11, 5, 3, 2), H_N=_n), dict(GRP(7, 3, 2, 2), H_N=_n), dict(GRP(23, 11, 2, 2), H_N=_n)], timeout=1200)
+          tu=EOTP_TU, groups=[dict(GRP(7, 3, 2, 2), H_N=_n)], groupsT=[dict(GRP(11, 5, 3, 2), H_N=_n), dict(GRP(7, 3, 2, 2), H_N=_n), dict(GRP(23, 11, 2, 2), H_N=_n)], timeout=1800)
     HARNESSES[-1]['defines'] = dict(HARNESSES[-1]['defines'], H_MAXDRAWS=24)
     if _n != 2: HARNESSES[-1]['in_tiers'] = ('thorough',)
     PROTO('C18', 'ot_n%d_firstmove' % _n, 'C18_eotp.cc', 'h_ot_n_firstmove', '1-of-%d sender answers exactly well-formed first moves (group elements, pairwise distinct z_i)' % _n, 'x, y, z_i each in [-1, p+2), sender coins',
-          tu=EOTP_TU, groups=[dict(GRP(11, 5, 3, 2), H_N=_n)], groupsT=[dict(GRP(11, 5, 3, 2), H_N=_n), dict(GRP(7, 3, 2, 2), H_N=_n), dict(GRP(23, 11, 2, 2), H_N=_n)], timeout=1200)
+          tu=EOTP_TU, groups=[dict(GRP(7, 3, 2, 2), H_N=_n)], groupsT=[dict(GRP(11, 5, 3, 2), H_N=_n), dict(GRP(7, 3, 2, 2), H_N=_n), dict(GRP(23, 11, 2, 2), H_N=_n)], timeout=1800)
     HARNESSES[-1]['defines'] = dict(HARNESSES[-1]['defines'], H_MAXDRAWS=24)
 GCRY_MODELS = ['gmp_model.c', 'libc_model.c', 'gcry_model.c']
 H(id='C12_pgp_mpidecode', property='C12', src='C12_openpgp.cc', entry='h_mpi_decode', tu=PGP, unwind=12, defines={'H_MAXLEN': 16}, models=GCRY_MODELS,
